@@ -129,6 +129,9 @@ FIter == /\ "iter" \in Faults
                  \/ DoFault(op, a, PanicAt("iter_drop", 0), Fresh(n), n)          \* the iterator's own destructor panics
                  \/ \E k \in 0..1 : DoFault(op, a, PanicAt("len", k), Fresh(n), n)
                  \/ \E how \in {"minus1", "plus1", "max", "flip_down", "flip_up"} : DoFault(op, a, Lie(how), Fresh(n), n)
+                 \* the announced length is the expected one, but one item more ("minus1" over n + 1 items) or fewer is yielded
+                 \/ DoFault(op, [a EXCEPT !.items = Fresh(n + 1)], Lie("minus1"), Fresh(n + 1), n + 1)
+                 \/ n > 1 /\ DoFault(op, [a EXCEPT !.items = Fresh(n - 1)], Lie("plus1"), Fresh(n - 1), n - 1)
             \/ \E op \in {"insert_col", "push_col"}, i \in Edge(C) :
                  LET n == IF grid = << >> THEN 2 ELSE R
                      a == IF op = "insert_col" THEN [index |-> Min2(i, C), items |-> Fresh(n)] ELSE [items |-> Fresh(n)] IN
@@ -136,6 +139,8 @@ FIter == /\ "iter" \in Faults
                  \/ DoFault(op, a, PanicAt("iter_drop", 0), Fresh(n), n)
                  \/ \E k \in 0..1 : DoFault(op, a, PanicAt("len", k), Fresh(n), n)
                  \/ \E how \in {"minus1", "plus1", "max", "flip_down", "flip_up"} : DoFault(op, a, Lie(how), Fresh(n), n)
+                 \/ DoFault(op, [a EXCEPT !.items = Fresh(n + 1)], Lie("minus1"), Fresh(n + 1), n + 1)
+                 \/ n > 1 /\ DoFault(op, [a EXCEPT !.items = Fresh(n - 1)], Lie("plus1"), Fresh(n - 1), n - 1)
 \* Clone panics at its k-th call
 FClone == /\ "clone" \in Faults
           /\ \/ \E k \in 0..Cells : DoFault("fill", [v |-> nextId], PanicAt("clone", k), <<nextId>>, 1)
